@@ -9,7 +9,7 @@ EXPLANATION = ('Value-flow normal forms and the loop summary of HMC::step with H
                'H = -logp + 1/2 sum_dim1 p^2 at both ends; accept mask = [H(x,p0) - H(x_L,p_L) - ln U >= 0] (non-strict), U uniform of shape [n_chains]; '
                'positions := mask_where(x, expand(unsqueeze_dim(mask,1)), x_L) as the only store; no tensor op on the slice mixes rows. '
                'Numeric reversibility "up to rounding" and row-wise behaviour of user densities are not decided.')
-FLOORS = {'obligations': 13}   # counted on the reference tree; fewer instantiated obligations is reported, never passed silently
+FLOORS = {'obligations': 14}   # counted on the reference tree; fewer instantiated obligations is reported, never passed silently
 TECHNIQUE = 'value-flow normal form + loop summary (Verlet transfer function) vs specification table; op allow-list (row independence)'
 ULP = 'distributions::BatchedGradientTarget::unnorm_logp_batch'
 HALF = T.div(T.ONE, N(2))
@@ -24,7 +24,7 @@ def run(ctx):
         for o in names:
             ctx.unknown('C02.' + o, A, o, why='anchor not found: hmc::HMC::step')
         return
-    ev = ctx.evaluate(b)
+    ev = ctx.evaluate(b, opts=GRAPH_OPTS)     # autodiff leaves / graph cuts visible: wiring is an obligation, values are compared after erasure
     sp = b['sp']
     tgt, x0, eps = selff('target'), selff('positions'), selff('step_size')
 
@@ -47,6 +47,15 @@ def run(ctx):
     gk = keys.get('self.last_grad_summands')
     others = [k for k in ls.lh if k != gk]
     # identify pos / mom among the two remaining carried places by their initial values
+    raw_terms = [ev.t(ls.next[k]) for k in ls.lh] + [ev.t(ls.init[k]) for k in ls.lh] + [ev.final_term('self.positions')]
+    wiring = grad_wiring_problems(raw_terms)
+    ngrads = len(T.atoms(T.tup(*raw_terms), lambda x: T.is_app(x, 'grad')))
+    ctx.check('C02.autodiff', A, 'autodiff', not wiring and ngrads >= 2, expected='every gradient is read from the require_grad leaf the density was evaluated on, with no graph cut in between (start gradient and per-iteration gradient)',
+              found='; '.join(wiring) or '%d gradient extractions, all wired leaf -> density -> backward -> grad(leaf)' % ngrads, sp=sp,
+              why='a gradient taken w.r.t. another tensor, or through a detached factor, is not the gradient of log p at the position: the integrator would not be leapfrog')
+    for k_ in list(ls.lh):
+        ls.next[k_] = erase_graph(ev.t(ls.next[k_]))
+        ls.init[k_] = erase_graph(ev.t(ls.init[k_])) if ls.init[k_] is not None else None
     posk = [k for k in others if ls.init[k] is x0]
     momk = [k for k in others if k not in posk]
     if gk is None or len(posk) != 1 or len(momk) != 1 or len(others) != 2:
@@ -75,7 +84,7 @@ def run(ctx):
 
     def ke(p):
         return T.mul(HALF, T.app('squeeze', T.app('sum_dim', T.powi(p, 2), N(1)), N(1)))
-    final = ev.final_term('self.positions')
+    final = erase_graph(ev.final_term('self.positions'))
     if not T.is_app(final, 'mask_where') or len(final[2]) != 3:
         for o in ('ret', 'ham_accept', 'select', 'uniform'):
             ctx.bad('C02.' + o, A, o, expected='positions := mask_where(x, mask, x_L)', found=show(final), sp=sp, why='row-wise selection between the old and the proposed positions')
@@ -110,7 +119,7 @@ def run(ctx):
             ctx.check('C02.uniform', A, 'uniform', oku, expected='U = [n_chains] StandardUniform draws', found=show(U), sp=sp, why='one acceptance variate per chain')
     # ---- row independence
     bad = []
-    for x in T.subterms(ev.final_term('self.positions')):
+    for x in T.subterms(erase_graph(ev.final_term('self.positions'))):
         if x[0] == 'app':
             if x[1] in DENY:
                 bad.append(x[1])
